@@ -19,6 +19,43 @@ FORBIDDEN_MODULES = {"random", "secrets", "uuid", "time", "datetime"}
 SAMPLING = {"simulate", "sample", "random_weighted", "propose", "generate", "sampler", "handle_trace"}
 
 
+CONSUMERS = ("simulate", "generate", "propose", "random_weighted", "sample", "importance")
+SIM_METHODS = ("simulate", "generate", "propose", "random_weighted", "importance", "__call__")
+
+
+def sweep_consumed_and_derived(chk, prog):
+    from ..rules import is_call as _ic
+    from ..terms import subterms
+
+    n = 0
+    for base in ("GenerativeFunction",):
+        for ci in prog.subclasses(base) + [prog.cls("GenerativeFunction", "core/generative/generative_function.py")]:
+            for meth in SIM_METHODS:
+                if meth not in ci.methods:
+                    continue
+                fn = ci.methods[meth]
+                if not any(a.arg == "key" for a in fn.args.args):
+                    continue
+                ev = Evaluator(prog)
+                try:
+                    r = ev.eval_fn(fn, ci.module, ci)
+                except RecursionError:
+                    continue
+                terms = [r.ret] + [sc.carry_out for sc in ev.scans.values()] + [sc.init for sc in ev.scans.values()]
+                consumed, parents = set(), set()
+                for t in terms:
+                    for x in subterms(t):
+                        if is_t(x, "call") and is_t(x[1], "attr") and x[1][2] in CONSUMERS and x[2]:
+                            consumed.add(x[2][0])
+                        if _ic(x, "fold_in", "split") and x[2]:
+                            parents.add(x[2][0])
+                both = [k for k in consumed & parents]
+                n += 1
+                chk.require(not both, "KEY-LINEAR", f"{ci.name}.{meth}/consumed-and-derived", "a consumed key is also a derivation parent",
+                            derived=f"{[show(k)[:100] for k in both]} is passed to a callee AND used as the parent of fold_in/split", expected="keys handed to a callee are leaves of the key tree", where=f"{ci.module.rel}:{fn.lineno}")
+    chk.floor("sampling methods swept for key linearity", n, 25)
+
+
 def run(chk, prog):
     n, obs = run_for(chk, prog, "C04", ALL)
     chk.floor("obligations tagged C04", n, 45)
@@ -72,6 +109,25 @@ def run(chk, prog):
     _, fn = prog.func("tfp_distribution", "distributions/tensorflow_probability/__init__.py")
     rs = Evaluator(prog).eval_fn(prog.nested(fn, "sampler"), m, env0={"dist": P("dist")})
     chk.require(is_mcall(rs.ret, "sample") and dict(rs.ret[3]).get("seed") == P("key"), "KEY-LINEAR", "tfp_distribution.sampler", "seed=key", derived=show(rs.ret)[:160], expected="d.sample(seed=key, ...)", where=f"{m.rel}:{fn.lineno}")
+    # ---------------------------------------------------------------- closures on the sampling path (shared with C32)
+    from ..report import Check
+    from . import C32
+
+    tmp = Check("C32", chk.tier, chk.seed, write_evidence=False)
+    C32.run(tmp, prog)
+    viol = {(v["rule"], v["instance"]): v for v in tmp.violations}
+    k = 0
+    for o in tmp.obligations:
+        if ".simulate" in o["instance"] or "__call__" in o["instance"]:
+            k += 1
+            v = viol.get((o["rule"], o["instance"]))
+            if v:
+                chk.violation(v["rule"], v["instance"], v["construct"], v["derived"], v["expected"], v["where"])
+            else:
+                chk.ok(o["rule"], o["instance"], o["fact"])
+    chk.floor("closure obligations on the simulate path", k, 8)
+    # ---------------------------------------------------------------- KEY-LINEAR sweep: a key handed to a callee is never also a parent of derivations
+    sweep_consumed_and_derived(chk, prog)
     chk.explanation = "PRNG-key lineage on all sampling paths (fold_in counters, split per element, fold_in per iteration) and absence of any other entropy source"
     for o in [o for o in obs.items if "C04" in o["props"]][:5]:
         chk.sample({"rule": o["rule"], "instance": o["instance"], "derived": o["derived"][:160]})
